@@ -467,12 +467,31 @@ def processBlockFast (s : State) (b : BlockAbs) : State × Res :=
         | (s2, true) => (s2, .rej)
         | (s2, false) => (s2, if m then .main else .side)
 
+/-- pooling a block when the pool is full, with the victim given from outside: WHICH orphan is dropped
+on overflow is an internal policy (btcd: the oldest, through a pointer that can be stale, so possibly
+none); the property only needs "at most one pooled orphan is dropped". `victim = none` drops nothing. -/
+def addOrphanForced (s : State) (b : BlockAbs) (victim : Option Hash) : State :=
+  let s2 : State := match victim with
+    | some h => { s with orphans := s.orphans.filter (fun p => p.1.hash != h),
+                         evicted := if s.orphans.any (fun p => p.1.hash == h) then h :: s.evicted else s.evicted,
+                         oldest := none }
+    | none => { s with oldest := none }
+  { s2 with orphans := s2.orphans ++ [(b, s2.clock)], clock := s2.clock + 1 }
+
 /-- `ProcessBlock` / `ProcessBlock(BFFastAdd)` for an arbitrary orphan-pool bound (driver only): the
-bound matters only on the branch that pools the block -/
-def processBlockB (bound : Nat) (fast : Bool) (s : State) (b : BlockAbs) : State × Res :=
+bound matters only on the branch that pools the block; `forced` overrides the eviction policy -/
+def processBlockB (bound : Nat) (fast : Bool) (forced : Option (Option Hash)) (s : State) (b : BlockAbs) : State × Res :=
   if !(s.status b.hash).data && !(s.orphans.any (fun p => p.1.hash == b.hash)) && b.sane &&
-      !(s.status b.parent).data then (addOrphanB bound s b, .orphan)
+      !(s.status b.parent).data then
+    match forced with
+    | some v => if s.orphans.length + 1 > bound then (addOrphanForced s b v, .orphan) else (addOrphanB bound s b, .orphan)
+    | none => (addOrphanB bound s b, .orphan)
   else if fast then processBlockFast s b else processBlock s b
+
+/-- does delivering `b` pool it while the pool is full? -/
+def overflows (bound : Nat) (s : State) (b : BlockAbs) : Bool :=
+  !(s.status b.hash).data && !(s.orphans.any (fun p => p.1.hash == b.hash)) && b.sane &&
+    !(s.status b.parent).data && s.orphans.length + 1 > bound
 
 /-! ### the machine -/
 
